@@ -90,7 +90,7 @@ def vq_cases(ctx, rng, scale, add, dist, failures):
                 cb = before['embed'][h if sep else 0]
                 toks = xh[:, :, h].reshape(-1, d).double().tolist()
                 ids = idx_s[:, :, h].reshape(-1).tolist()
-                tol = Fraction(0) if exact else TOL_NAT
+                tol = Fraction(0) if (exact and mode != 'frozen') else TOL_NAT      # after the training call the codebook has left the dyadic grid: bisector points are float near-ties
                 quant = None if proj else out_s.reshape(b_, n_, heads, d)[:, :, h].reshape(-1, d).double().tolist()
                 add(term(cosine, tol, cb, toks, ids, quant, Fraction(0) if mode == 'eval' else TOL_Q),
                     dict(kind='vq', kw=kw, mode=mode, head=h, exact=exact, layout=layout), nontrivial(cb, toks, ids))
@@ -321,7 +321,15 @@ def other_cases(ctx, rng, scale, add, dist, failures):
             cb = q.codebook.double().tolist()
         xs = (x.movedim(1, -1) if cf else x).reshape(-1, d).double().tolist()
         qs = (out.movedim(1, -1) if cf else out).reshape(-1, d).double().tolist()
-        add(term(False, TOL_NAT, cb, xs, idx.reshape(-1).tolist(), qs, Fraction(1, 10 ** 4)), dict(kind='simvq', mlp=mlp, channel_first=cf), len(set(idx.reshape(-1).tolist())) >= 2)
+        # the rotation trick returns the code as a rotated and rescaled copy of the input: in float32 its error grows like eps / |u + q|^2 when the
+        # input direction u is nearly opposite to the code direction q (an ill-conditioned reflection), so the band for "the returned vector is that
+        # entry" follows the conditioning of the worst token of the call (1e-4 when well conditioned)
+        with torch.no_grad():
+            xn = torch.nn.functional.normalize((x.movedim(1, -1) if cf else x).reshape(-1, d), dim=-1)
+            qn = torch.nn.functional.normalize(q.codebook[idx.reshape(-1)], dim=-1)
+            cmin = float((xn + qn).norm(dim=-1).min())
+        qtol_s = Fraction(1, 10 ** 4) if cmin > 0.5 else Fraction(min(0.05, max(1e-4, 2e-5 / max(cmin, 1e-3) ** 2))).limit_denominator(10 ** 6)
+        add(term(False, TOL_NAT, cb, xs, idx.reshape(-1).tolist(), qs, qtol_s), dict(kind='simvq', mlp=mlp, channel_first=cf), len(set(idx.reshape(-1).tolist())) >= 2)
         dist['simvq'] += 1
         # ResidualSimVQ: each layer against the residual it received
         rq = ResidualSimVQ(dim=d, num_quantizers=2, codebook_size=K)
@@ -332,8 +340,12 @@ def other_cases(ctx, rng, scale, add, dist, failures):
             res = x.clone()
             for li, layer in enumerate(rq.layers):
                 cb = layer.codebook.double().tolist()
+                xn = torch.nn.functional.normalize(res.reshape(-1, d), dim=-1)
+                qn = torch.nn.functional.normalize(layer.codebook[idx[..., li].reshape(-1)], dim=-1)
+                cmin = float((xn + qn).norm(dim=-1).min())
+                qtol_r = Fraction(1, 10 ** 4) if cmin > 0.5 else Fraction(min(0.05, max(1e-4, 2e-5 / max(cmin, 1e-3) ** 2))).limit_denominator(10 ** 6)
                 add(term(False, TOL_NAT, cb, res.reshape(-1, d).double().tolist(), idx[..., li].reshape(-1).tolist(),
-                         allc[li].reshape(-1, d).double().tolist(), Fraction(1, 10 ** 4)), dict(kind='rsimvq', layer=li), True)
+                         allc[li].reshape(-1, d).double().tolist(), qtol_r), dict(kind='rsimvq', layer=li), True)
                 res = res - allc[li]
         dist['rsimvq'] += 1
         # RandomProjectionQuantizer: cosine, separate codebooks, inner VQ forced to eval
